@@ -761,7 +761,7 @@ class EffectClient(Client):
             fn = call.func
             if isinstance(fn, ast.Attribute):
                 recv = self.canon(fn.value)
-                if recv == ('self', 'dul_socket') and fn.attr in ('sendall', 'connect', 'close'):
+                if recv == ('self', 'dul_socket') and fn.attr in SOCKET_MAY_FAIL + ('close',):
                     if fn.attr != 'close':
                         out.append('OSError')
                     if s.sock == 'absent':
@@ -789,6 +789,12 @@ class EffectClient(Client):
                     if any(k in (NONE, TOP) for k in s.prim):
                         out.append('AttributeError')
         return sorted(set(out))
+
+
+# socket methods that fail with OSError on a connection the peer has reset or that cannot be established (close() does not:
+# it only releases the descriptor)
+SOCKET_MAY_FAIL = ('sendall', 'send', 'sendto', 'sendmsg', 'sendfile', 'connect', 'shutdown', 'recv', 'recv_into', 'recvfrom',
+                   'recvmsg', 'getpeername', 'setsockopt', 'getsockopt')
 
 
 def _provider_defines(model: FsmModel, attr: str) -> bool:
